@@ -12,7 +12,7 @@ import traceback
 from vsim import seams, simcache
 from vsim.core import EventLog, SimClock, mkrng, stable_hash
 from vsim.fs import World
-from vsim.sched import Scheduler, SchedulerAbort, SimLock, make_tracer
+from vsim.sched import Scheduler, SchedulerAbort, SimEvent, SimLock, make_tracer
 
 NAME = "c16_threads"
 PROPERTY = "C16"
@@ -198,10 +198,22 @@ def _workload(rng, small=False):
             else:
                 ops.append(["get", "/missing.html"])
         actors["ABC"[t]] = ops
-    if cfg["fs_checks"] and rng.random() < (0.15 if small else 0.4):
+    if cfg["fs_checks"] and not small and rng.random() < 0.2:
+        # phased history: every thread loads the hot URI, the writer then edits it >= 1 s later, and every
+        # thread asks again at the same time: several threads see the same stale entry
+        hot_i = next((i for i, u in enumerate(uspecs) if u["uri"] == hot), 0)
+        for t in range(nthreads):
+            xn += 1
+            again = ["render", hot, "%s%d" % ("ABC"[t], xn)] if hot in renderable and rng.random() < 0.4 else ["get", hot]
+            actors["ABC"[t]] = [["get", hot], ["signal", "ready"], ["wait", "go", 1], again] + actors["ABC"[t]][:2]
+        actors["W"] = [["wait", "ready", nthreads], ["advance", rng.choice((1, 2))], ["modify", hot_i], ["advance", rng.choice((1, 1, 2))],
+                       ["signal", "go"]]
+    elif cfg["fs_checks"] and rng.random() < (0.15 if small else 0.4):
         wops = []
         for _ in range(rng.randint(1, 3)):
-            wops.append(["modify", rng.randrange(nuri)])
+            # mostly the file every thread is asking for: two threads then see the same stale entry
+            hot_i = next((i for i, u in enumerate(uspecs) if u["uri"] == hot), 0)
+            wops.append(["modify", hot_i if rng.random() < 0.7 else rng.randrange(nuri)])
             wops.append(["advance", rng.choice((1, 1, 2))])
         actors["W"] = wops
     est = 60 if cfg["granularity"] == "coarse" else 600
@@ -322,6 +334,7 @@ class Harness:
         self.lookup._mutex = self.mutex
         self.cons = {}
         self.cons_active = 0
+        self.events = {}
         self.built = {}  # id(Template) -> (actor, step at constructor entry, step at exit)
         self.keep = []
         self.records = {}  # actor -> list of call records
@@ -511,6 +524,10 @@ class Harness:
                 raise
             except Exception:
                 pass
+        elif kind == "signal":
+            self.event(op[1]).signal()
+        elif kind == "wait":
+            self.event(op[1]).wait(op[2])
         elif kind == "construct":
             self.do_construct(name, op[1])
         elif kind == "has":
@@ -528,6 +545,12 @@ class Harness:
                     self.flag("has-template-mismatch", "has_template(%r) returned %r although get_template %s" % (op[1], r, rec["kind"]))
         elif kind == "render":
             self.do_render(name, op[1], op[2])
+
+    def event(self, name):
+        ev = self.events.get(name)
+        if ev is None:
+            ev = self.events[name] = SimEvent(self.sched, name)
+        return ev
 
     def do_construct(self, name, uri):
         import mako.template
